@@ -373,7 +373,33 @@ async fn mux_drive<S: Socket>(sc: &Scenario, mut clients: Vec<Connection<S>>, mu
                 if *from_pm == 0 {
                     res[0].0.push(SentRec { seq: *call, len: *len, h: fnv(pad.as_bytes()), res: "ok" });
                 }
-                if raw.write_all(&frame[a..b]).is_err() {
+                // (the raw end is non-blocking: a piece larger than the kernel's socket buffer goes out as the
+                // server takes it - the server runs whenever this task sleeps)
+                let mut at = a;
+                let mut failed = false;
+                let mut waits = 0;
+                while at < b {
+                    match raw.write(&frame[at..b]) {
+                        Ok(0) => {
+                            failed = true;
+                            break;
+                        }
+                        Ok(n) => at += n,
+                        Err(e) if e.kind() == std::io::ErrorKind::WouldBlock || e.kind() == std::io::ErrorKind::Interrupted => {
+                            waits += 1;
+                            if waits > 20_000 {
+                                failed = true;
+                                break;
+                            }
+                            sleep(1).await;
+                        }
+                        Err(_) => {
+                            failed = true;
+                            break;
+                        }
+                    }
+                }
+                if failed {
                     dead[0] = true;
                     res[0].1.push(RcvdRec { cls: "io_err", i: 0, len: 0, h: String::new() });
                     continue;
